@@ -207,7 +207,11 @@ def run(tier, rep):
     doc_mismatch = []
     table = lambda n: 8 if n <= 6 else 16 if n <= 12 else 32 if n <= 25 else 64 if n <= 51 else 128 if n <= 103 else 256
     for n in range(1, 193):
-        got = int(fb._num_taylor_coefficients(n))
+        try:
+            got = int(fb._num_taylor_coefficients(n))
+        except Exception as ex:
+            rep.violation('numcoef-raises', dict(n=n), '_num_taylor_coefficients(%d) raised %r' % (n, ex))
+            continue
         if got < n + 1 or got & (got - 1):
             rep.violation('numcoef', dict(n=n, got=got), '_num_taylor_coefficients(%d) = %d: fewer than n+1 coefficients (or not a power of two)' % (n, got))
         if got != table(n):
